@@ -1,7 +1,7 @@
 """C04 - operators are ordinary functions: dispatch-path agreement (static clauses)."""
 import re
 from .core import (builds_error, CheckError, find_match, arm_region, pat_str, strip_ref, origins, only_when, pat_paths,
-                   Registry, op_local)
+                   Registry, op_local, param_sources)
 from .opassign import opassign_facts
 
 META = {
@@ -202,7 +202,9 @@ def run(F, rep, tier):
             rep.error('R4.2', 'missing ' + fn)
             continue
         b = F.body(fn)
-        vs = sorted({s[2][4] for _bb, s in b.aggregates() if s[2][2] == 'core::Func' and s[2][4].startswith('PartialApp')})
+        # the variant may be built by a small constructor helper (a crate function returning Func) the function calls
+        bs_ = [b] + [F.body(c.target) for c in b.calls if F.has_fn(c.target) and (F.fns.get(c.target) or {}).get('output') == 'core::Func']
+        vs = sorted({s[2][4] for b_ in bs_ for _bb, s in b_.aggregates() if s[2][2] == 'core::Func' and s[2][4].startswith('PartialApp')})
         if vs == [variant]:
             rep.ok('R4.2', fn, 'builds Func::' + variant)
         else:
@@ -236,18 +238,36 @@ def run(F, rep, tier):
             else:
                 return None
         return None
+    # constructor helpers: a crate function returning Func whose only PartialAppLast aggregate takes both fields from parameters
+    ctor = {}
+    for b in F.all_bodies():
+        if (F.fns.get(b.path) or {}).get('output') != 'core::Func':
+            continue
+        ag_ = [s_ for _bb, s_ in b.aggregates(b.reach) if s_[2][2] == 'core::Func' and s_[2][4] == 'PartialAppLast' and len(s_[2][5]) == 2]
+        if len(ag_) == 1:
+            pi = param_sources(b, ag_[0][2][5][0], passthru=('new', 'clone', 'into', 'from'))
+            pj = param_sources(b, ag_[0][2][5][1], passthru=('new', 'clone', 'into', 'from'))
+            if len(pi) == 1 and len(pj) == 1:
+                ctor[b.path] = (min(pi) - 1, min(pj) - 1)
     nn = 0
     for b in F.all_bodies():
-        aggs = [(bb, s_) for bb, s_ in b.aggregates(b.reach) if s_[2][2] == 'core::Func' and s_[2][4] == 'PartialAppLast' and len(s_[2][5]) == 2]
-        if len(aggs) < 2:
+        cons = [(bb, s_[2][5][0], s_[2][5][1]) for bb, s_ in b.aggregates(b.reach)
+                if s_[2][2] == 'core::Func' and s_[2][4] == 'PartialAppLast' and len(s_[2][5]) == 2]
+        cons += [(c.bb, c.args[ctor[c.target][0]], c.args[ctor[c.target][1]]) for c in b.calls
+                 if c.target in ctor and len(c.args) > max(ctor[c.target])]
+        if len(cons) < 2:
             continue
-        for bb, s_ in aggs:
-            if not any(r_[0] == 'agg' and r_[-1] == 'PartialAppLast' for r_ in b.roots(s_[2][5][0])):
+
+        def _nested(fop):
+            return any((r_[0] == 'agg' and r_[-1] == 'PartialAppLast') or (r_[0] == 'call' and r_[1] in ctor) for r_ in b.roots(fop))
+        for bb, fop, xop in cons:
+            if not _nested(fop):
                 continue
-            inner = [t_ for _b2, t_ in aggs if t_ is not s_ and not any(r_[0] == 'agg' and r_[-1] == 'PartialAppLast' for r_ in b.roots(t_[2][5][0]))]
+            inner = [t_ for t_ in cons if t_[0:1] != (bb,) or t_[2] is not xop]
+            inner = [t_ for t_ in inner if t_[2] is not xop and not _nested(t_[1])]
             if len(inner) != 1:
                 continue
-            so, si = _slot(b, s_[2][5][1]), _slot(b, inner[0][2][5][1])
+            so, si = _slot(b, xop), _slot(b, inner[0][2])
             if so is None or si is None or so[0] != si[0]:
                 continue
             nn += 1
